@@ -49,7 +49,9 @@ def corpus_texts(L):
     variants = []
     for l in out:
         variants += [l, l + " # c", l + "\n", l + "\r\n", l.lower(), l.upper(), "# c\n" + l, l.replace(" ", "  ", 1), l + " x", l[:-1], l.replace("@", "", 1)]
-    variants += ["", "\n", "#", "# only a comment", "2024-01-01", "2024-01-01 BUY", "2024-1-01 BUY A 1 @ 2", "2024-01-01 BUY A 1 @ 2 TAX", "2024-01-01 BUY A 1 @ 2 USD FEES 1 EUR"]
+    variants += ["", "\n", "#", "# only a comment", "2024-01-01", "2024-01-01 BUY", "2024-1-01 BUY A 1 @ 2", "2024-01-01 BUY A 1 @ 2 TAX", "2024-01-01 BUY A 1 @ 2 USD FEES 1 EUR",
+                 "2024-01-01 BUY A 1 @ 2 XYZ", "2024-01-01 BUY A 1 @ 2 usd", "2024-01-01 BUY A 1 @ 2 uSd fees 1", "2024-01-01 DIVIDEND A TOTAL 5 tax 1", "2024-01-01 DIVIDEND A TOTAL 5 Tax 1 eur",
+                 "2024-01-01 DIVIDEND A TOTAL 5 TAX", "2024-01-01 SELL A 1 @ 2 fees", "2024-01-01 sell a 1 @ 2 Fee 1", "2024-01-01 SPLIT A ratio 2", "2024-01-01 BUY A 1 @ 2 ALL", "2024-01-01 BUY A 1 @ 2 buy"]
     seen, res = set(), []
     for v in variants:
         if v not in seen and len(v) <= L:
